@@ -60,6 +60,49 @@ var numIterKinds = []string{"absent", "raise", "0", "1", "3", "2.5", "str3", "ni
 var assertKinds = []string{"true", "false", "nil", "1", "strtrue", "nothing", "truemsg", "raise"}
 var binKinds = []string{"brk", "brk", "brk", "illegal", "bcd", "unmapped", "short", "asmfail", "trapok", "trapraise", "trapmissing", "trapruntime", "trapfirstraise", "trapsecondraise", "toobig"}
 
+// the codes the data sheets leave undefined (MOS MCS6500 family programming manual: 105 of 256; Rockwell/WDC 65C02 with the
+// bit instructions: 44 of 256).  RTI and - on the 65C02 - STP ($DB) and WAI ($CB) are defined by the data sheets and are
+// not in these lists.  The driver cross-checks every code it is sent against the specification's decoder.
+var undef6502 = []uint8{
+	0x02, 0x03, 0x04, 0x07, 0x0b, 0x0c, 0x0f, 0x12, 0x13, 0x14, 0x17, 0x1a, 0x1b, 0x1c, 0x1f, 0x22, 0x23, 0x27, 0x2b, 0x2f, 0x32, 0x33,
+	0x34, 0x37, 0x3a, 0x3b, 0x3c, 0x3f, 0x42, 0x43, 0x44, 0x47, 0x4b, 0x4f, 0x52, 0x53, 0x54, 0x57, 0x5a, 0x5b, 0x5c, 0x5f, 0x62, 0x63,
+	0x64, 0x67, 0x6b, 0x6f, 0x72, 0x73, 0x74, 0x77, 0x7a, 0x7b, 0x7c, 0x7f, 0x80, 0x82, 0x83, 0x87, 0x89, 0x8b, 0x8f, 0x92, 0x93, 0x97,
+	0x9b, 0x9c, 0x9e, 0x9f, 0xa3, 0xa7, 0xab, 0xaf, 0xb2, 0xb3, 0xb7, 0xbb, 0xbf, 0xc2, 0xc3, 0xc7, 0xcb, 0xcf, 0xd2, 0xd3, 0xd4, 0xd7,
+	0xda, 0xdb, 0xdc, 0xdf, 0xe2, 0xe3, 0xe7, 0xeb, 0xef, 0xf2, 0xf3, 0xf4, 0xf7, 0xfa, 0xfb, 0xfc, 0xff}
+var undef65C02 = []uint8{
+	0x02, 0x03, 0x0b, 0x13, 0x1b, 0x22, 0x23, 0x2b, 0x33, 0x3b, 0x42, 0x43, 0x44, 0x4b, 0x53, 0x54, 0x5b, 0x5c, 0x62, 0x63, 0x6b, 0x73,
+	0x7b, 0x82, 0x83, 0x8b, 0x93, 0x9b, 0xa3, 0xab, 0xb3, 0xbb, 0xc2, 0xc3, 0xd3, 0xd4, 0xdc, 0xe2, 0xe3, 0xeb, 0xf3, 0xf4, 0xfb, 0xfc}
+
+// undefWalk: all (model, undefined code) pairs in an order drawn from the stream's rng, handed out one after the other, so
+// that the random cases of a stream cover the whole negative space of both decode tables as evenly as their number allows
+var undefWalk []string
+
+func nextUndef(r *rng.R) string {
+	if len(undefWalk) == 0 {
+		for _, o := range undef6502 {
+			undefWalk = append(undefWalk, fmt.Sprintf("undef.6502.%02x", o))
+		}
+		for _, o := range undef65C02 {
+			undefWalk = append(undefWalk, fmt.Sprintf("undef.65C02.%02x", o))
+		}
+		for i := len(undefWalk) - 1; i > 0; i-- {
+			j := r.Intn(i + 1)
+			undefWalk[i], undefWalk[j] = undefWalk[j], undefWalk[i]
+		}
+	}
+	u := undefWalk[len(undefWalk)-1]
+	undefWalk = undefWalk[:len(undefWalk)-1]
+	return u
+}
+
+// fixed boundary drivers: the first and last undefined code of every column that has one, codes that are instructions
+// on the other model only, on both models
+var verdictFixed = []string{
+	"undef.6502.02", "undef.6502.03", "undef.6502.0b", "undef.6502.80", "undef.6502.1a", "undef.6502.ff", "undef.6502.fc", "undef.6502.89",
+	"undef.65C02.02", "undef.65C02.03", "undef.65C02.13", "undef.65C02.0b", "undef.65C02.33", "undef.65C02.fb", "undef.65C02.f3", "undef.65C02.5c",
+	"undef.65C02.44", "undef.65C02.fc",
+}
+
 func luaNumIters(kind string) string {
 	switch kind {
 	case "absent":
@@ -91,7 +134,7 @@ func luaReturn(kind string) string {
 	return "return " + kind
 }
 
-func verdictCase(r *rng.R, dir string) string {
+func verdictCase(r *rng.R, dir string, fixedBin string) string {
 	ni := numIterKinds[r.Intn(len(numIterKinds))]
 	if r.Chance(60) {
 		ni = []string{"absent", "1", "3", "2.5"}[r.Intn(4)]
@@ -117,6 +160,27 @@ func verdictCase(r *rng.R, dir string) string {
 		arrangeErrAt = r.Intn(3)
 	}
 	scriptBroken := r.Chance(5)
+	// a driver that runs into an undefined opcode: `undef.<model>.<code>`; the case fails whatever the script says, so most of
+	// these come with a script that leaves nothing else to fail the case
+	model := "6502"
+	if r.Chance(11) {
+		// (a ninth of the cases: a quick run of 1500 walks once through all 149 pairs)
+		bin = nextUndef(r)
+	}
+	if fixedBin != "" {
+		bin = fixedBin
+	}
+	if strings.HasPrefix(bin, "undef.") {
+		model = strings.Split(bin, ".")[1]
+		count("verdict.undef." + model)
+		if fixedBin != "" || r.Chance(70) {
+			ni = []string{"absent", "1", "3"}[r.Intn(3)]
+			for i := range asserts {
+				asserts[i] = []string{"true", "truemsg"}[r.Intn(2)]
+			}
+			arrangeErrAt, scriptBroken = -1, false
+		}
+	}
 	var sb strings.Builder
 	sb.WriteString("iter = 0\n")
 	sb.WriteString(luaNumIters(ni))
@@ -166,11 +230,18 @@ func verdictCase(r *rng.R, dir string) string {
 	case "trapfirstraise", "trapsecondraise":
 		code = prg(0x0800, 0xA9, 0x42, 0x8D, 0x00, 0x7F, 0xE8, 0x8D, 0x00, 0x7F, 0x00) // two stores to the trap address
 	}
+	if strings.HasPrefix(bin, "undef.") {
+		// INX; the undefined code; BRKs (whatever length something executing the code as an instruction gives it)
+		var o uint8
+		fmt.Sscanf(strings.Split(bin, ".")[2], "%02x", &o)
+		code = prg(0x0800, 0xE8, o, 0x00, 0x00, 0x00, 0x00)
+	}
 	fa := &fakeAsm{bins: map[string]string{}}
 	if bin != "asmfail" {
 		fa.bins["drv.a"] = writeFile(dir, "drv.bin", code)
 	}
 	cfg := emuconfig.DefaultConfig() // 6502, Linear32K
+	cfg.Model = model
 	c, _ := cfg.NewCpu()
 	tc := &verifier.TestCase{Name: "t", TestDriverSource: "drv.a", TestScript: "case.lua"}
 	var err error
@@ -188,6 +259,7 @@ func verdictCase(r *rng.R, dir string) string {
 			panic(e)
 		}
 		vcfg := emuconfig.DefaultConfig()
+		vcfg.Model = model
 		vcfg.AcmeBinary, vcfg.AcmeTestDir, vcfg.AcmeSrcDir, vcfg.AcmeBinDir = self, dir, dir, filepath.Join(dir, "bin")
 		cfgDir, e := os.MkdirTemp("", "verif-verdictcfg")
 		if e != nil {
@@ -313,6 +385,9 @@ func suiteViaCommand(sub string, verbose bool, prexec, trap bool) string {
 	return "ok " + m[1]
 }
 
+// suiteSeq: number of the suite within the stream (the first two are fixed boundary suites)
+var suiteSeq = 0
+
 // suiteCase: verifyall through CaseExec and IterateTestCases: count and overall result
 func suiteCase(r *rng.R, dir string) string {
 	sub := filepath.Join(dir, "suite")
@@ -321,6 +396,23 @@ func suiteCase(r *rng.R, dir string) string {
 	n := 1 + r.Intn(5)
 	verdicts := []string{}
 	viaCmd := r.Chance(50)
+	// case files that are symbolic links into another directory (a case shared between projects): every case file present
+	// in the test directory counts, whatever kind of directory entry it is.  Fixed: three cases of which the linked one is the
+	// only one that fails (through CaseExec), three passing cases one of which is linked (through the command: the count);
+	// random: a fifth of the suites have one linked case (which fails half of the time) and possibly more
+	suiteSeq++
+	fixedLink := suiteSeq <= 2
+	links := fixedLink || r.Chance(20)
+	linkAt := -1
+	if links {
+		linkAt = r.Intn(n)
+	}
+	if fixedLink {
+		n, viaCmd, linkAt = 3, suiteSeq == 2, 1
+	}
+	linkDir := filepath.Join(dir, "linked")
+	os.RemoveAll(linkDir)
+	os.MkdirAll(linkDir, 0700)
 	fa := &fakeAsm{bins: map[string]string{}}
 	fa.bins["ok.a"] = writeFile(sub, "ok.bin", prg(0x0800, 0xE8, 0x00))
 	fa.bins["bad.a"] = writeFile(sub, "bad.bin", prg(0x0800, 0x02))
@@ -342,6 +434,18 @@ func suiteCase(r *rng.R, dir string) string {
 	repo, _ := verifier.NewCaseRepo(sub, "")
 	for i := 0; i < n; i++ {
 		k := r.Intn(10)
+		isLink := links && (i == linkAt || r.Chance(30))
+		switch {
+		case fixedLink:
+			k = 9
+			if i == linkAt && suiteSeq == 1 {
+				k = 0
+			}
+		case links && i == linkAt && r.Chance(50):
+			k = r.Intn(2)
+		case links && !isLink && r.Chance(70):
+			k = 9
+		}
 		v := "1"
 		tc := &verifier.TestCase{Name: fmt.Sprintf("c%d", i), TestDriverSource: "ok.a", TestScript: "pass.lua"}
 		switch {
@@ -367,14 +471,29 @@ func suiteCase(r *rng.R, dir string) string {
 			tc.TestDriverSource = "noasm.a"
 			v = "0"
 		}
-		verdicts = append(verdicts, v)
 		data := fmt.Sprintf("{\"Name\":%q,\"TestDriverSource\":%q,\"TestScript\":%q}", tc.Name, tc.TestDriverSource, tc.TestScript)
 		// case file names with additional dots are case files like any other
 		fname := fmt.Sprintf("c%d.json", i)
 		if r.Chance(35) {
 			fname = fmt.Sprintf("c%d.%s.json", i, []string{"signed", "v2", "a.b"}[r.Intn(3)])
 		}
-		writeFile(sub, fname, []byte(data))
+		if isLink {
+			// the link names its target by an absolute path or relative to the test directory
+			target := writeFile(linkDir, fname, []byte(data))
+			if r.Bool() {
+				target = filepath.Join("..", "linked", fname)
+			}
+			if os.Symlink(target, filepath.Join(sub, fname)) == nil {
+				v += "l"
+				count("suite.linkedcase")
+			} else {
+				isLink = false
+			}
+		}
+		if !isLink {
+			writeFile(sub, fname, []byte(data))
+		}
+		verdicts = append(verdicts, v)
 	}
 	res := ""
 	if viaCmd {
@@ -404,8 +523,12 @@ func verdictStream(seed uint64, n int) {
 	r := rng.New(seed + 909)
 	dir := tmpDir()
 	defer os.RemoveAll(dir)
+	undefWalk, suiteSeq = nil, 0
+	for _, fb := range verdictFixed {
+		emit(verdictCase(r, dir, fb))
+	}
 	for i := 0; i < n; i++ {
-		emit(verdictCase(r, dir))
+		emit(verdictCase(r, dir, ""))
 		if i%5 == 0 {
 			emit(suiteCase(r, dir))
 		}
@@ -419,6 +542,13 @@ var _ = cpu.Model6502
 
 // isoCoproc: the machines of the current isolation case carry the coprocessor layer (both units, registers at $0380)
 var isoCoproc = false
+
+// isoRom: the configuration of the current isolation case preloads ROM images (PreLoad): a routine at $3400 and the same
+// file once more at $3600, a table at $3800.  They belong to the pristine image every case starts from.
+var isoRom = false
+
+var isoRomRoutine = []byte{0xA9, 0xC3, 0x8D, 0x70, 0x03, 0x60, 0x5A, 0xA5} // LDA #$C3; STA $0370; RTS; two data bytes
+var isoRomTable = []byte{0x11, 0x22, 0x33, 0x44, 0x55, 0x66, 0x77, 0x88, 0x99}
 
 type dirtyCase struct {
 	name   string
@@ -486,6 +616,18 @@ func dirtyPool(spec string, trap bool) []dirtyCase {
 		pool = append(pool, dirtyCase{"coprocuser", prg(0x0800, 0xA9, 0x03, 0x8D, 0x80, 0x03, 0xA9, 0x00, 0x8D, 0x81, 0x03, 0xA9, 0x05, 0x8D, 0x82, 0x03,
 			0xA9, 0x00, 0x8D, 0x83, 0x03, 0x00), "function arrange() end\nfunction assert() return read_byte(0x0390) == 15 end\n" + trapFn})
 	}
+	if isoRom {
+		// cases whose verdict depends on the preloaded ROM bytes: one calls the routine in the image (a case started without
+		// the image runs into the BRK that is there instead and never stores $C3), one reads the images from its script, one
+		// overwrites them (the next case must find them again)
+		pool = append(pool,
+			dirtyCase{"romcall", prg(0x0800, 0x20, 0x00, 0x34, 0xE8, 0x00),
+				"function arrange() end\nfunction assert() return read_byte(0x0370) == 0xC3 and get_xreg() == 1 end\n" + trapFn},
+			dirtyCase{"romread", prg(0x0800, 0xAD, 0x02, 0x38, 0x00),
+				"function arrange() end\nfunction assert() return get_accu() == 0x33 and read_byte(0x3606) == 0x5A and read_byte(0x3407) == 0xA5 and read_byte(0x3808) == 0x99 end\n" + trapFn},
+			dirtyCase{"romsmash", prg(0x0800, 0xA9, 0x00, 0x8D, 0x00, 0x34, 0x8D, 0x02, 0x38, 0x00),
+				"function arrange() set_memory(0x3600, '0000000000000000') end\nfunction assert() return read_byte(0x3400) == 0 end\n" + trapFn})
+	}
 	return append([]dirtyCase{
 		{"clean", prg(0x0800, 0xE8, 0x00), "function arrange() end\nfunction assert() return get_xreg() == 1 end\n" + trapFn},
 		{"regs", prg(0x0800, 0xA9, 0x55, 0xA2, 0x66, 0xA0, 0x77, 0x9A, 0x38, 0xF8, 0x00),
@@ -500,6 +642,9 @@ func dirtyPool(spec string, trap bool) []dirtyCase {
 			"function arrange() end\nfunction trap(c) write_byte(0x0360, c) set_yreg(c) end\nfunction assert() return true end\n"},
 	}, pool...)
 }
+
+// isoRomRanges: the cells the preloaded images occupy
+var isoRomRanges = [][2]uint64{{0x3400, 0x3400 + uint64(len(isoRomRoutine))}, {0x3600, 0x3600 + uint64(len(isoRomRoutine))}, {0x3800, 0x3800 + uint64(len(isoRomTable))}}
 
 // observe: the complete observable state of the machine a case is given
 func observe(spec string, c *cpu.CPU6502, trapAddr uint16, trap bool) string {
@@ -559,6 +704,10 @@ func isolationRun(spec string, model string, prexec, trap bool, dir string, case
 		cfg.F256MCoprocFlags = 5
 		cfg.F256MCoprocBase = 0x0380
 	}
+	if isoRom {
+		rom1, rom2 := writeFile(dir, "routine.rom", isoRomRoutine), writeFile(dir, "table.rom", isoRomTable)
+		cfg.PreLoad = map[uint16]string{0x3400: rom1, 0x3600: rom1, 0x3800: rom2}
+	}
 	repo, _ := verifier.NewCaseRepo(dir, "")
 	ce := caseexec.NewCaseExec(cfg, fakeAsmProv{fa}, repo, false)
 	var outBuf strings.Builder
@@ -582,6 +731,17 @@ func isolationRun(spec string, model string, prexec, trap bool, dir string, case
 		rc, err := cfg2.NewCpu()
 		if err != nil {
 			return
+		}
+		if isoRom {
+			// the images are put there by hand: not by the configuration's preloading code, which is under test
+			for _, im := range []struct {
+				at   uint16
+				data []byte
+			}{{0x3400, isoRomRoutine}, {0x3600, isoRomRoutine}, {0x3800, isoRomTable}} {
+				for k, b := range im.data {
+					rc.Mem.Store(im.at+uint16(k), b)
+				}
+			}
 		}
 		if prexec {
 			if _, _, err := rc.LoadAndRun(fa.bins["setup.a"]); err != nil {
@@ -622,7 +782,8 @@ func isolationCase(r *rng.R, dir string) string {
 	}
 	prexec, trap := r.Bool(), r.Bool()
 	isoCoproc = r.Chance(30)
-	defer func() { isoCoproc = false }()
+	isoRom = r.Chance(30)
+	defer func() { isoCoproc, isoRom = false, false }()
 	pool := dirtyPool(spec, trap)
 	if !trap {
 		pool = append(pool[:5], pool[6:]...)
@@ -631,6 +792,10 @@ func isolationCase(r *rng.R, dir string) string {
 	cases := []dirtyCase{}
 	for i := 0; i < k; i++ {
 		cases = append(cases, pool[r.Intn(len(pool))])
+		if isoRom && r.Chance(50) {
+			// one of the three cases that need / overwrite the images
+			cases[i] = pool[len(pool)-1-r.Intn(3)]
+		}
 	}
 	model := []string{"6502", "65C02"}[r.Intn(2)]
 	{
@@ -638,7 +803,7 @@ func isolationCase(r *rng.R, dir string) string {
 		for _, dc := range cases {
 			nm = append(nm, dc.name)
 		}
-		pend("isolation %s.%s%s %v %v %s", spec, model, map[bool]string{true: "+cop", false: ""}[isoCoproc], prexec, trap, strings.Join(nm, ","))
+		pend("isolation %s.%s%s %v %v %s", spec, model, isoFlags(), prexec, trap, strings.Join(nm, ","))
 	}
 	starts, results := isolationRun(spec, model, prexec, trap, dir, cases)
 	eq := []string{}
@@ -675,7 +840,19 @@ func isolationCase(r *rng.R, dir string) string {
 	if trap {
 		tr = 1
 	}
-	return fmt.Sprintf("isolation %s.%s%s %d %d %s => %s", spec, model, map[bool]string{true: "+cop", false: ""}[isoCoproc], pe, tr, strings.Join(names, ","), strings.Join(eq, ","))
+	return fmt.Sprintf("isolation %s.%s%s %d %d %s => %s", spec, model, isoFlags(), pe, tr, strings.Join(names, ","), strings.Join(eq, ","))
+}
+
+// isoFlags: the additions to the documented machine of the current isolation case, as they appear in the request
+func isoFlags() string {
+	f := ""
+	if isoCoproc {
+		f += "+cop"
+	}
+	if isoRom {
+		f += "+rom"
+	}
+	return f
 }
 
 // soloInChild runs one case of the pool alone in a child process of this binary (cached: the result is a function of
@@ -683,11 +860,11 @@ func isolationCase(r *rng.R, dir string) string {
 var soloCache = map[string][2]string{}
 
 func soloInChild(spec, model string, prexec, trap bool, name string) ([]string, []string) {
-	key := fmt.Sprintf("%s %s %v %v %s %v", spec, model, prexec, trap, name, isoCoproc)
+	key := fmt.Sprintf("%s %s %v %v %s %v %v", spec, model, prexec, trap, name, isoCoproc, isoRom)
 	if v, ok := soloCache[key]; ok {
 		return []string{v[0]}, []string{v[1]}
 	}
-	cmd := exec.Command(os.Args[0], "isochild", spec, model, fmt.Sprint(prexec), fmt.Sprint(trap), name, fmt.Sprint(isoCoproc))
+	cmd := exec.Command(os.Args[0], "isochild", spec, model, fmt.Sprint(prexec), fmt.Sprint(trap), name, fmt.Sprint(isoCoproc), fmt.Sprint(isoRom))
 	outb, err := cmd.Output()
 	parts := strings.Split(string(outb), "\x1e")
 	if err != nil || len(parts) != 3 {
@@ -701,6 +878,7 @@ func soloInChild(spec, model string, prexec, trap bool, name string) ([]string, 
 func isoChild(args []string) {
 	spec, model, prexec, trap, name := args[0], args[1], args[2] == "true", args[3] == "true", args[4]
 	isoCoproc = len(args) > 5 && args[5] == "true"
+	isoRom = len(args) > 6 && args[6] == "true"
 	dir, err := os.MkdirTemp("", "verif-iso")
 	if err != nil {
 		os.Exit(3)
